@@ -8,7 +8,8 @@ Ops == <<"decl-literal", "decl-comp", "copy-b-from-a", "reassign-literal", "reas
          "pass-to-function", "return-from-function", "string-concat", "string-len",
          "append-own-first", "append-own-last", "swap-a-b", "swap-in-function", "index-into-other", "append-from-other",
          "drain-then-append", "drain-then-reassign", "grow-copy-append",
-         "helper-assigns-global-list", "cond-remove-then-negative-index", "cond-append-then-negative-index">>
+         "helper-assigns-global-list", "cond-remove-then-negative-index", "cond-append-then-negative-index",
+         "self-assign-then-index", "keep-or-replace-then-index", "string-list-copy-then-grow", "string-list-through-function">>
 Places == <<"setup", "loop", "shared">>
 VARIABLES h, place
 Init == h = <<>> /\ place \in 1..Len(Places)
